@@ -27,6 +27,7 @@
 #include "crypto/hash/sha1.h"
 #include "crypto/hash/sha2.h"
 #include "crypto/hash/gost3411-2012.h"
+#include "proto/radius.h" /* C07: the Message-Authenticator HMAC-MD5 keeps its context in an automatic object */
 
 #if defined(__has_feature)
 #	if __has_feature(memory_sanitizer)
@@ -42,7 +43,7 @@
 #endif
 
 enum { OP_INFO = 0, OP_HASH_STREAM, OP_HASH_ONESHOT, OP_HASH_HEX, OP_HMAC_STREAM,
-       OP_HMAC_ONESHOT, OP_HMAC_GET, OP_HMAC_HEX, OP_INJECT, OP_HMAC_STACKSCAN };
+       OP_HMAC_ONESHOT, OP_HMAC_GET, OP_HMAC_HEX, OP_INJECT, OP_HMAC_STACKSCAN, OP_RADIUS_MA_STACKSCAN };
 enum { F_NATIVE = 0, F_GENERIC, F_SSE, F_AVX, F_SHANI };
 #define NALG 8
 #define CANARY 0xA5
@@ -604,8 +605,43 @@ static void op_hmac_stackscan(vin_t *in, vout_t *o) {
 	munmap(stk, SS_SIZE);
 	free(ss.out); free(kbase); free(mbase); free(cbase);
 }
+/* RADIUS Message-Authenticator on the private stack: u8 inside, u8 have_req, blob packet, u32 attr offset, blob key,
+ * blob request packet, u8 n, n * blob needle -> u8 status, i32 rc, blob msg_authenticator(16), n * i64 */
+static struct { uint8_t *pkt; size_t attr_off; uint8_t *key; size_t kn; int inside; uint8_t *req; uint8_t *out; int rc; } rs;
+static void rs_worker(void) {
+	rs.rc = radius_pkt_attr_msg_authenticator_calc((rad_pkt_hdr_p)rs.pkt, (rad_pkt_attr_p)(rs.pkt + rs.attr_off),
+	    rs.key, rs.kn, rs.inside, (rad_pkt_hdr_p)rs.req, rs.out);
+}
+static void op_radius_ma_stackscan(vin_t *in, vout_t *o) {
+	int inside = vin_u8(in), have_req = vin_u8(in);
+	size_t pn, kn, rn, i, nn; uint32_t off;
+	const uint8_t *pkt = vin_blob(in, &pn); 
+	const uint8_t *key, *req; void *pbase, *kbase, *rbase; uint8_t *stk;
+	off = vin_u32(in); key = vin_blob(in, &kn); req = vin_blob(in, &rn); nn = vin_u8(in);
+	if (in->bad || pn < 20 || off + 18 > pn || (have_req && rn < 20)) { vout_u8(o, 2); return; }
+	stk = mmap(NULL, SS_SIZE, PROT_READ | PROT_WRITE, MAP_PRIVATE | MAP_ANONYMOUS, -1, 0);
+	if (stk == MAP_FAILED) { vout_u8(o, 2); return; }
+	rs.pkt = place(pkt, pn, 0, &pbase); rs.attr_off = off;
+	rs.key = place(key, kn, 0, &kbase); rs.kn = kn; rs.inside = inside;
+	rs.req = have_req ? place(req, rn, 0, &rbase) : NULL; if (!have_req) rbase = NULL;
+	rs.out = out_alloc(16);
+	getcontext(&ss_work);
+	ss_work.uc_stack.ss_sp = stk; ss_work.uc_stack.ss_size = SS_SIZE; ss_work.uc_link = &ss_main;
+	makecontext(&ss_work, rs_worker, 0);
+	swapcontext(&ss_main, &ss_work);
+	vout_u8(o, 0); vout_i32(o, rs.rc); vout_blob(o, rs.out, 16);
+	for (i = 0; i < nn; i++) {
+		size_t ln; const uint8_t *nd = vin_blob(in, &ln), *f;
+		if (in->bad || ln == 0) { vout_i64(o, -2); continue; }
+		f = memmem(stk, SS_SIZE, nd, ln);
+		vout_i64(o, f ? (int64_t)((stk + SS_SIZE) - f) : -1);
+	}
+	munmap(stk, SS_SIZE);
+	free(rs.out); free(pbase); free(kbase); free(rbase);
+}
 #else
 static void op_hmac_stackscan(vin_t *in, vout_t *o) { (void)in; vout_u8(o, 3); }
+static void op_radius_ma_stackscan(vin_t *in, vout_t *o) { (void)in; vout_u8(o, 3); }
 #endif
 
 int main(void) {
@@ -624,6 +660,7 @@ int main(void) {
 		case OP_HMAC_ONESHOT: case OP_HMAC_GET: case OP_HMAC_HEX: op_hmac_oneshot(&in, &o, op); break;
 		case OP_INJECT: op_inject(&in, &o); break;
 		case OP_HMAC_STACKSCAN: op_hmac_stackscan(&in, &o); break;
+		case OP_RADIUS_MA_STACKSCAN: op_radius_ma_stackscan(&in, &o); break;
 		default: vout_u8(&o, 2); break;
 		}
 		vout_flush(&o);
